@@ -46,6 +46,11 @@ def build_problem(kind):
     if kind == "multi-min":
         # a multi-objective problem that happens to have ONE objective, minimised
         return MultiObjectiveProblem(minimize=[True], fitness_function=lambda p: [p[1]])   # (the library's default aggregate)
+    if kind == "multi-bool-max":
+        # ONE bool for all objectives (their number is only known after the first evaluation), and it says "maximise"
+        return MultiObjectiveProblem(minimize=False, fitness_function=lambda p: [p[1]])
+    if kind == "multi-bool-min":
+        return MultiObjectiveProblem(minimize=True, fitness_function=lambda p: [p[1]])
     if kind == "multi-both":
         # BOTH a user aggregate and a criterion for the best individual, which disagree: the aggregate is what `is_better` and the
         # recorded fitness go by (aggregate_fitness takes precedence in evaluate), so it is what "best" means for elitism too
@@ -86,11 +91,11 @@ def elitism_case(h: Harness, values, shape, k, form, kind, tag):
             f"not min(k, len) members of the population, or an excluded individual is strictly better than an included one",
             replay, nontrivial=nontrivial)
     # the aggregate the library sorts by is the value itself, negated under minimisation
-    minimised = kind in ("min", "multi-min")
+    minimised = kind in ("min", "multi-min", "multi-bool-min")
     pname = "MultiObjectiveProblem" if kind.startswith("multi") else "SingleObjectiveProblem"
     for p, oid in zip(pop, shape):
         h.holds(f"{pname}.evaluate", "wrong-direction", ["prop_direction", minimised, values[oid], p[1]],
-                f"{pname}(minimize={'[True]' if kind == 'multi-min' else minimised}) gave value {values[oid]} the maximising aggregate {p[1]}: "
+                f"{pname}(minimize={'[True]' if kind == 'multi-min' else minimised}{', one bool for all objectives' if 'bool' in kind else ''}) gave value {values[oid]} the maximising aggregate {p[1]}: "
                 f"elitism then keeps the {'worst' if minimised else 'best'} individuals", replay, nontrivial=False)
 
 
@@ -100,7 +105,7 @@ def check_elitism(h: Harness):
     for n in range(0, nmax + 1):
         for values in itertools.product(range(3), repeat=n):
             for k in range(0, n + 2):
-                for kind in ("max", "min", "multi", "multi-min", "multi-both"):
+                for kind in ("max", "min", "multi", "multi-min", "multi-both", "multi-bool-max", "multi-bool-min"):
                     for form in FORMS:
                         if n == 5 and form == "population":
                             continue
@@ -113,18 +118,18 @@ def check_elitism(h: Harness):
             if s and rng.random() < 0.15:
                 shape[s] = shape[rng.randrange(s)]
         values = [rng.randint(-4, 4) for _ in range(n)]
-        elitism_case(h, values, shape, rng.randint(0, n + 1), rng.choice(FORMS), rng.choice(["max", "min", "multi", "multi-min", "multi-both"]), "random")
+        elitism_case(h, values, shape, rng.randint(0, n + 1), rng.choice(FORMS), rng.choice(["max", "min", "multi", "multi-min", "multi-both", "multi-bool-max", "multi-bool-min"]), "random")
     # a few elites out of a LARGE population (the default step keeps 5%), many ties at the cut
     for _ in range(h.n(400, 3000)):
         n = rng.randint(20, 60)
         k = rng.randint(2, max(2, n // 10))
         values = [rng.randint(0, rng.choice([2, 3, 4])) for _ in range(n)]
-        elitism_case(h, values, list(range(n)), k, rng.choice(FORMS), rng.choice(["max", "min", "multi", "multi-min", "multi-both"]), "large")
+        elitism_case(h, values, list(range(n)), k, rng.choice(FORMS), rng.choice(["max", "min", "multi", "multi-min", "multi-both", "multi-bool-max", "multi-bool-min"]), "large")
     # sort_population: stable, best first
     for _ in range(h.n(100, 1000)):
         n = rng.randint(0, 9)
         rep = StubRep(1)
-        kind = rng.choice(["max", "min", "multi", "multi-min", "multi-both"])
+        kind = rng.choice(["max", "min", "multi", "multi-min", "multi-both", "multi-bool-max", "multi-bool-min"])
         problem = build_problem(kind)
         inds = [Individual((i, rng.randint(0, 3), (0,)), rep) for i in range(n)]
         pop = lib_pop(inds, problem)
@@ -399,18 +404,36 @@ def check_runs_tree(h: Harness):
         if "lexicase" in sc.kinds(step):
             continue
         configs.append((step, rng.randint(2, 14)))
+    # elitism as the LAST slice of the generation
+    last = ("par", ["novelty", ("seq", [("tournament", 2, False), ("mutation", 1001)]), "elitism"], [1, 2, 1])
+    configs += [(last, n) for n in (6, 9, 12, 7, 8, 10)]
     for step, n in configs:
         g, r, rep = sc.tree_setup(rng.randrange(1000))
         gens = h.n(6, 40)
         minimize = rng.random() < 0.5
-        problem = SingleObjectiveProblem(lambda p: float(sc.count_nodes(p) % 7), minimize=minimize)
+        cut = rng.random() < 0.5 or step is last
+        if cut:
+            # (a fitness of many different values: the best of a generation is rare among newcomers)
+            import zlib
+            problem = SingleObjectiveProblem(lambda p: float(zlib.crc32(repr(p).encode()) % 1000), minimize=minimize)
+        else:
+            problem = SingleObjectiveProblem(lambda p: float(sc.count_nodes(p) % 7), minimize=minimize)
         rec = sc.GenRecorder(limit=4 * (gens + 1) * n + 100)
         tracker = SingleObjectiveProgressTracker(problem, SequentialEvaluator(), recorders=[rec])
         tree = sc.default_step_tree() if step is None else step
         real = default_generic_programming_step() if step is None else sc.real_step(step)
         slots = elite_slots(tree, n)
         replay = {"step": sc.step_str(tree), "population_size": n, "generations": gens, "minimize": minimize, "elite_slots": slots}
-        gp = GeneticProgramming(problem=problem, budget=sc.Generations(gens), representation=rep, random=r, tracker=tracker,
+        # half of the runs end on an EVALUATION budget that runs out in the middle of a generation: the generation under way is
+        # completed like every other one (its elitism slice included, wherever it stands among the slices)
+        budget = sc.Generations(gens)
+        if cut:
+            from geneticengine.evaluation.budget import AnyOf, EvaluationBudget
+            evals = n * rng.randint(1, gens) + rng.randint(1, max(1, n - 1))
+            budget = EvaluationBudget(evals) if rng.random() < 0.6 else AnyOf(sc.Generations(gens + 2), EvaluationBudget(evals))
+            replay["budget"] = f"EvaluationBudget({evals})"
+            h.count("run-tree:evaluation-budget-ending-mid-generation")
+        gp = GeneticProgramming(problem=problem, budget=budget, representation=rep, random=r, tracker=tracker,
                                 population_size=n, population_initializer=StandardInitializer(), step=real)
         try:
             gp.search()
@@ -421,8 +444,8 @@ def check_runs_tree(h: Harness):
         if any(s >= 1 for s in slots):
             h.count("run-tree:elite-slot>=1")
             h.holds("GeneticProgramming.search", "best-fitness-decreased", ["prop_monotone", bs],
-                    f"search() [tree representation, minimize={minimize}] with step {sc.step_str(tree)} (elitism slots {slots}), "
-                    f"population_size={n}: best aggregate per generation {bs}", replay)
+                    f"search() [tree representation, minimize={minimize}, budget {replay.get('budget', 'generations')}] with step {sc.step_str(tree)} "
+                    f"(elitism slots {slots}), population_size={n}: best aggregate per generation {bs}", replay)
         else:
             h.count("run-tree:no-elite-slot(default step rounds 5% to 0)")
             h.seen(f"noslot:{sc.step_str(tree)}:{n}", nontrivial=False)
